@@ -1297,6 +1297,13 @@ def _datom(aid, xid, memo):
     elif d[0] == "ite":
         da, db = deriv(d[2], xid, memo), deriv(d[3], xid, memo)
         r = 0.0 if _is_zero(da) and _is_zero(db) else where(d[1], da, db)
+    elif d[0] == "angle":
+        re, im = d[1], d[2]
+        dre, dim = deriv(re, xid, memo), deriv(im, xid, memo)
+        if _is_zero(dre) and _is_zero(dim):
+            r = 0.0
+        else:
+            r = div(sub(mul(re, dim), mul(im, dre)), add(mul(re, re), mul(im, im)))
     elif d[0] in ("cos", "sin"):
         dp = deriv(d[1], xid, memo)
         r = 0.0 if _is_zero(dp) else (neg(mul(d[2], dp)) if d[0] == "cos" else mul(d[2], dp))
